@@ -414,6 +414,53 @@ def c12Update (st : BkState) (pre post : Server) (ws : List String) (io : ImplOu
             else ({ st with lastFirst := (st.lastFirst.filter (·.1 != key)) ++ [(key, seq, pl)] }, vs)
           | none => ({ st with lastFirst := st.lastFirst ++ [(key, seq, pl)] }, vs)) acc) (st, [])
 
+/-- C11 (send bound) on the real broker's streams: the number of QoS>0 PUBLISH packets written to a
+    connection and not yet acknowledged by the client never exceeds the Receive Maximum the client
+    declared. Acknowledgements of this op are taken into account first. -/
+def c11Update (st : BkState) (pre post : Server) (ws : List String) (io : ImplOut) : BkState × List String :=
+  let get (n : Nat) : List Nat := (st.unacked.find? (·.1 == n)).map (·.2) |>.getD []
+  -- 1. the client's acknowledgement in this op
+  let (st, ackConn) : BkState × Option Nat := match ws with
+    | "bk.send" :: n :: typ :: kv =>
+      match n.toNat? with
+      | some n =>
+        let id := kvNatD kv "id" 1
+        let rc := kvNatD kv "rc" 0
+        let q2 := typ == "PUBREC" || typ == "PUBCOMP" || typ == "PUBREL" || (typ == "PUBLISH" && kvNatD kv "q" 0 == 2)
+        let st := if q2 && !st.sawQos2.contains n then { st with sawQos2 := st.sawQos2 ++ [n] } else st
+        -- an acknowledgement for an id that is not in transit (e.g. of a message the broker still holds
+        -- back) is the client's misbehaviour: the send bound is no longer judged on that connection
+        let st := if (typ == "PUBACK" || typ == "PUBREC" || typ == "PUBCOMP") && !(get n).contains id && !st.c11skip.contains n
+          then { st with c11skip := st.c11skip ++ [n] } else st
+        if typ == "PUBACK" || typ == "PUBCOMP" || (typ == "PUBREC" && rc ≥ 128) then
+          ({ st with unacked := (st.unacked.filter (·.1 != n)) ++ [(n, (get n).filter (· != id))] }, some n)
+        else (st, none)
+      | none => (st, none)
+    | _ => (st, none)
+  let _ := ackConn
+  -- 2. what was written in this op
+  let isConn := ws.head? == some "bk.conn" || ws.head? == some "bk.release"
+  io.conns.foldl (fun (acc : BkState × List String) (nd : Nat × List String) =>
+    let (st, vs) := acc
+    let n := nd.1
+    let cur := (st.unacked.find? (·.1 == n)).map (·.2) |>.getD []
+    let ids := nd.2.filterMap fun p =>
+      if p.startsWith "PUB:" && fieldOf p "q" != some "0" then (fieldOf p "id").bind (·.toNat?) else none
+    let cur' := ids.foldl (fun l id => if l.contains id then l else l ++ [id]) cur
+    let st := { st with unacked := (st.unacked.filter (·.1 != n)) ++ [(n, cur')] }
+    -- a connection that resumed a session holding in-flight messages starts with full quotas (F11)
+    let st := if isConn && !ids.isEmpty && !st.sawQos2.contains n then { st with sawQos2 := st.sawQos2 ++ [n] } else st
+    match objOfConn post n with
+    | none => (st, vs)
+    | some c =>
+      let rm := if c.recvMaxProp == 0 then 65535 else c.recvMaxProp
+      if c.ver == 5 && cur'.length > rm && cur'.length > cur.length && !st.c11skip.contains n then
+        -- F11 (recorded): resumed sessions get full quotas and are resent everything at once; QoS 2
+        -- acknowledgements move both quotas
+        (st, vs ++ [fail "C11" (if isConn || st.sawQos2.contains n then "F11" else "-")
+          s!"c{n} has {cur'.length} unacknowledged QoS>0 PUBLISH packets in transit (ids {cur'}), the client declared Receive Maximum {rm}"])
+      else (st, vs)) (st, [])
+
 def renderVerdicts (vs : List String) : String :=
   if vs.isEmpty then "ok" else "; ".intercalate vs
 
@@ -429,7 +476,8 @@ def brokerOpV (st : BkState) (impl : String) (ws : List String) : Option (BkStat
   match brokerOp st impl ws with
   | some (st', m, _, g) =>
     let (st'', c12) := c12Update st' st.srv st'.srv ws (parseImplOut core) flags
-    some (st'', m, renderVerdicts (brokerVerdicts st.srv ws core flags ++ c12), g)
+    let (st3, c11) := c11Update st'' st.srv st'.srv ws (parseImplOut core)
+    some (st3, m, renderVerdicts (brokerVerdicts st.srv ws core flags ++ c12 ++ c11), g)
   | none => none
 
 end Mochi.Driver
